@@ -2,7 +2,7 @@
 //! descriptor becomes readable — also while another coroutine of the loop keeps the ready queue busy (it yields in
 //! a loop for `busy` ms, so every turn of the loop thread uses up its whole slice) and with pools that keep idle workers.
 //! body: `<busy ms> <write after ms> <keep_alive ms> <min_size>`
-//! out : `got=<bytes the recv returned|-> late=<0|1>`  late = woken more than 700 ms after the byte was written
+//! out : `got=<bytes the recv returned|-> late=<0|1>`  late = woken more than 1200 ms after the byte was written
 use crate::rng::Rng;
 use open_coroutine_core::common::constants::DEFAULT_STACK_SIZE;
 use open_coroutine_core::config::Config;
@@ -12,7 +12,7 @@ use std::sync::atomic::{AtomicI64, AtomicU64, Ordering};
 use std::time::{Duration, Instant};
 
 pub fn gen(r: &mut Rng, _thorough: bool) -> String {
-    let busy = *r.pick(&[0u64, 0, 300, 1500, 2500]);
+    let busy = *r.pick(&[0u64, 0, 300, 2500, 3000]);
     let after = *r.pick(&[20u64, 60, 150]);
     let keep = *r.pick(&[0u64, 0, 3000]);
     let min = *r.pick(&[0u64, 0, 1]);
@@ -63,6 +63,6 @@ pub fn exec(body: &str, emit: &mut dyn FnMut(&str)) {
     unsafe { libc::write(sv[1], one.as_ptr().cast(), 3); }
     while GOT.load(Ordering::SeqCst) == -100 && start.elapsed() < Duration::from_millis(after + 3500) { std::thread::sleep(Duration::from_millis(5)); }
     let got = GOT.load(Ordering::SeqCst);
-    let late = got == -100 || WOKEN_MS.load(Ordering::SeqCst) > wrote_at + 700;
+    let late = got == -100 || WOKEN_MS.load(Ordering::SeqCst) > wrote_at + 1200;
     emit(&format!("got={} late={}", if got == -100 { "-".to_string() } else { got.to_string() }, if late { 1 } else { 0 }));
 }
